@@ -194,6 +194,11 @@ func ruleC09Shared(p *Prog, a *Anchors, r *Report) {
 				}
 			}
 		}
+		if !taken {
+			// the take-over was extracted into a helper the executor calls with `from` (ctx.continueRendering(from)): the
+			// nil test may stand there as an early return
+			taken = u4StateTakenOverInHelper(p, ex, from, field, false, 0)
+		}
 		// the tags that execute templates hand their own context over
 		handed, sites := true, 0
 		for _, e := range p.Callers(p.CG, ex) {
@@ -1153,7 +1158,12 @@ func ruleC09SortOrder(p *Prog, a *Anchors, r *Report) {
 						v := rv
 						if !Guarded(in, func(c ssa.Value, pol bool) bool {
 							cc, ok := c.(*ssa.Call)
-							return ok && pol && cc.Common().StaticCallee() != nil && cc.Common().StaticCallee().Name() == "IsInteger" && len(cc.Common().Args) > 0 && p.VN(cc.Common().Args[0]) == p.VN(v)
+							if ok && pol && cc.Common().StaticCallee() != nil && cc.Common().StaticCallee().Name() == "IsInteger" && len(cc.Common().Args) > 0 && p.VN(cc.Common().Args[0]) == p.VN(v) {
+								return true
+							}
+							// a predicate of the package that wraps the test (isIntegerPair(a, b)): every way on which it answers true
+							// establishes IsInteger() of the parameter v is passed for
+							return ok && pol && u4PredicateShowsInteger(p, cc, v, 0)
 						}) {
 							intGuarded = false
 						}
